@@ -2,6 +2,8 @@ package main
 
 import (
 	"bufio"
+	"context"
+	"os"
 	"fmt"
 	"io"
 	"os/exec"
@@ -26,6 +28,8 @@ type Solver struct {
 	Script  []string
 	Answers []string
 	timeout int
+	full    []string // every command of the current path
+	Fallbacks int
 }
 
 func NewSolver(timeoutMs int) *Solver {
@@ -51,13 +55,48 @@ func (s *Solver) Send(x string) {
 	if s.rec {
 		s.Script = append(s.Script, x)
 	}
+	s.full = append(s.full, x)
 	s.raw(x)
+}
+
+// fallback replays the current path's commands (without earlier check-sats)
+// on cvc5 and returns its answer to the last check-sat.
+func (s *Solver) fallback() string {
+	f, err := os.CreateTemp("", "gosym-fb-*.smt2")
+	if err != nil {
+		return "unknown"
+	}
+	defer os.Remove(f.Name())
+	fmt.Fprintln(f, "(set-logic ALL)")
+	last := len(s.full) - 1
+	for i, l := range s.full {
+		if l == "(check-sat)" && i != last {
+			continue
+		}
+		if strings.HasPrefix(l, "(set-option") {
+			continue
+		}
+		fmt.Fprintln(f, l)
+	}
+	f.Close()
+	ctx, cancel := context.WithTimeout(context.Background(), time.Duration(s.timeout*3)*time.Millisecond)
+	defer cancel()
+	out, _ := exec.CommandContext(ctx, "cvc5", "--incremental", "--solve-bv-as-int=sum", f.Name()).Output()
+	ans := "unknown"
+	for _, l := range strings.Split(string(out), "\n") {
+		l = strings.TrimSpace(l)
+		if l == "sat" || l == "unsat" || l == "unknown" {
+			ans = l
+		}
+	}
+	return ans
 }
 
 func (s *Solver) BeginPath(record bool) {
 	s.decls = map[string]bool{}
 	s.rec = record
 	s.Script, s.Answers = nil, nil
+	s.full = s.full[:0]
 	s.Send("(push)")
 }
 
@@ -132,6 +171,14 @@ func (s *Solver) CheckModel(extra *Term, names []string) (string, map[string]str
 	}
 	if len(s.Errors) > nerr || res == "timeout" {
 		res = "unknown"
+	}
+	if res == "unknown" && len(s.Errors) == nerr && s.full != nil {
+		// second opinion: the same scope on cvc5 with the integer encoding of
+		// bit-vectors (decides comparison chains that stall bit-blasting)
+		if r2 := s.fallback(); r2 == "unsat" {
+			res = "unsat"
+			s.Fallbacks++
+		}
 	}
 	if s.rec {
 		s.Answers = append(s.Answers, res)
